@@ -271,11 +271,16 @@ func wideTree(n int) any {
 	for i := 0; i < n; i++ {
 		ch = append(ch, []any{"a", map[string]any{"#text": fmt.Sprint(i)}, []any{}})
 	}
-	ch = append(ch, []any{"b", nil, []any{}})
+	// five more names: in the object form Go's random map order then almost never hands
+	// the children to fq's sort already in order (an already sorted slice is left alone)
+	for _, n := range []string{"b", "c", "d", "e", "f"} {
+		ch = append(ch, []any{n, nil, []any{}})
+	}
 	return []any{"r", nil, ch}
 }
 
-var xmlWideCounts = []int{2, 10, 11, 12, 13, 40}
+// n same-named children plus five others: 7, 11, 12 (still insertion sorted), 13, 40 children
+var xmlWideCounts = []int{2, 6, 7, 8, 35}
 
 func enumXML(e *env) {
 	maxNodes := core_pick(e, 4, 5)
